@@ -235,3 +235,51 @@ def band_cov(rng, stdevs, band):
 
 def count_obs(net):
     return sum(len(c["obs"]) * (3 if c["kind"] == "vectors" else 1) for c in net["clusters"])
+
+
+def add_coordinates_cluster(rng, net, truth, ids, dim=2, noise=1.0, sd=5.0, cov_band=None):
+    """observed coordinates of the given points (x,y[,z]) with stdev sd mm (or a banded covariance)"""
+    obs = []
+    n = 0
+    for pid in ids:
+        x, y, z = truth[pid]
+        o = {"t": "point", "id": pid}
+        if dim != 1:
+            o["x"] = x + rng.gauss(0, 1) * noise * sd * 1e-3
+            o["y"] = y + rng.gauss(0, 1) * noise * sd * 1e-3
+            n += 2
+        if dim != 2:
+            o["z"] = z + rng.gauss(0, 1) * noise * sd * 1e-3
+            n += 1
+        obs.append(o)
+    if cov_band is None:
+        cov = {"dim": n, "band": 0, "vals": [sd * sd] * n}
+    else:
+        cov, _ = band_cov(rng, [sd] * n, cov_band)
+    net["clusters"].append({"kind": "coordinates", "obs": obs, "cov": cov})
+
+
+def add_vectors_cluster(rng, net, truth, pairs, noise=1.0, sd=5.0, cov_band=None):
+    obs = []
+    for (a, b) in pairs:
+        pa, pb = truth[a], truth[b]
+        obs.append({"t": "vec", "from": a, "to": b,
+                    "dx": pb[0] - pa[0] + rng.gauss(0, 1) * noise * sd * 1e-3,
+                    "dy": pb[1] - pa[1] + rng.gauss(0, 1) * noise * sd * 1e-3,
+                    "dz": pb[2] - pa[2] + rng.gauss(0, 1) * noise * sd * 1e-3})
+    n = 3 * len(obs)
+    if cov_band is None:
+        cov = {"dim": n, "band": 0, "vals": [sd * sd] * n}
+    else:
+        cov, _ = band_cov(rng, [sd] * n, cov_band)
+    net["clusters"].append({"kind": "vectors", "obs": obs, "cov": cov})
+
+
+def add_azimuths(rng, net, truth, pairs, noise=1.0, sd=10.0):
+    """azimuth observations in the ne / left-handed base convention (x axis = north: azimuth = bearing)"""
+    by_from = {}
+    for (a, b) in pairs:
+        v = (bearing(truth[a], truth[b]) * R2G + rng.gauss(0, 1) * noise * sd * 1e-4) % 400.0
+        by_from.setdefault(a, []).append({"t": "azimuth", "to": b, "val": v, "stdev": sd})
+    for a, obs in by_from.items():
+        net["clusters"].append({"kind": "obs", "from": a, "obs": obs})
